@@ -457,11 +457,32 @@ class Compiler(object):
                 if resolved_member['type'] == 'OCTET STRING':
                     self.pre_process_default_value_octet_string(member)
 
-                if resolved_member['type'] == 'ENUMERATED' and self._numeric_enums:
-                    for key, value in resolved_member['values']:
-                        if key == member['default']:
-                            member['default'] = value
-                            break
+                if resolved_member['type'] == 'ENUMERATED':
+                    self.pre_process_default_value_enumerated(member,
+                                                              resolved_member)
+
+    def pre_process_default_value_enumerated(self, member, resolved_member):
+        """The default is the enumeration name, or its number if numeric
+        enums are selected. The specification dictionary may already
+        have been compiled with the other setting, so convert in both
+        directions.
+
+        """
+
+        for item in resolved_member['values']:
+            if item == EXTENSION_MARKER:
+                continue
+
+            key, value = item
+
+            if self._numeric_enums:
+                if key == member['default']:
+                    member['default'] = value
+                    break
+            elif (value == member['default']
+                  and not isinstance(member['default'], str)):
+                member['default'] = key
+                break
 
     def pre_process_default_value_bit_string(self, member, resolved_member):
         default = member['default']
